@@ -2431,7 +2431,9 @@ impl Connection {
                         }
                     }
 
-                    if !self.state.is_closed() {
+                    // Retry and Version Negotiation packets carry no packet number and are not
+                    // authenticated: they must not count as such, nor restart the idle timer
+                    if !self.state.is_closed() && number.is_some() {
                         let spin = match packet.header {
                             Header::Short { spin, .. } => spin,
                             _ => false,
@@ -2555,7 +2557,8 @@ impl Connection {
                     return Ok(());
                 }
 
-                if self.total_authed_packets > 1
+                if self.total_authed_packets > 0
+                            || self.retry_src_cid.is_some()
                             || packet.payload.len() <= 16 // token + 16 byte tag
                             || !self.crypto.is_valid_retry(
                                 self.rem_cids.active(),
@@ -2743,7 +2746,7 @@ impl Connection {
                 Ok(())
             }
             Header::VersionNegotiate { .. } => {
-                if self.total_authed_packets > 1 {
+                if self.total_authed_packets > 0 {
                     return Ok(());
                 }
                 let supported = packet
